@@ -423,8 +423,10 @@ func c15ApplyFault(t *testing.T, a *chain.App, ctx sdk.Context, e *c15Env, fault
 			}
 		}
 		if gov != "gov:ok" {
-			a.NewliqKeeper.SetParams(ctx, liqV2types.Params{LiquidationBatchSize: b})
-			a.LiquidationKeeper.SetParams(ctx, liqV1types.Params{LiquidationBatchSize: b})
+			// refused: since fix C09-F4 the validation rejects sizes above MaxInt64, and the keeper's own setter
+			// validates too (it panics on an invalid value and stores nothing): the stored size then stays
+			safely(func() { a.NewliqKeeper.SetParams(ctx, liqV2types.Params{LiquidationBatchSize: b}) })
+			safely(func() { a.LiquidationKeeper.SetParams(ctx, liqV1types.Params{LiquidationBatchSize: b}) })
 		}
 		detail = fmt.Sprintf("batch=%d %s grown=%s", b, gov, grown)
 	case "english-off":
